@@ -135,6 +135,8 @@ type C16Endpoint struct {
 	Domain   string // dns: the tunnel domain of this endpoint (miekg's handler table is process-wide: one domain per endpoint)
 	// Host: how the upstream URL spells this endpoint and what its certificate is valid for: "" = 127.0.0.1 with a
 	// certificate for both spellings, "localhost" = by name with a certificate for the name only, "ip" = 127.0.0.1
+	// with a certificate for 127.0.0.1 only, "ip6" = server and relay listen on ::1, the URL says [::1]:port, the
+	// certificate is valid for ::1 only
 	// with a certificate for the addresses only.
 	Host string
 	// Scheme: how the upstream URL spells the scheme ("" = the default spelling of the kind, see C16Spellings)
@@ -161,6 +163,131 @@ func NewC16EndpointHost(kind, name string, withCert bool, host string) (*C16Endp
 var c16HostMu sync.Mutex
 var c16NextHost string
 
+// ---- IPv6 loopback, host-specific certificates ------------------------------------------------------
+
+var c16v6Once sync.Once
+var c16v6 bool
+
+// C16HasIPv6Loopback probes once whether this machine has a usable ::1 (tcp and udp).
+func C16HasIPv6Loopback() bool {
+	c16v6Once.Do(func() {
+		l, err := net.Listen("tcp", "[::1]:0")
+		if err != nil {
+			return
+		}
+		defer l.Close()
+		c, err := net.Dial("tcp", l.Addr().String())
+		if err != nil {
+			return
+		}
+		c.Close()
+		pc, err := net.ListenPacket("udp", "[::1]:0")
+		if err != nil {
+			return
+		}
+		pc.Close()
+		c16v6 = true
+	})
+	return c16v6
+}
+
+// c16Loop is the loopback address (as written in a host:port) of a host spelling.
+func c16Loop(host string) string {
+	if host == "ip6" {
+		return "[::1]"
+	}
+	return "127.0.0.1"
+}
+
+// c16FreePort is FreePort for the loopback of a host spelling.
+func c16FreePort(host string, udp bool) int {
+	if host != "ip6" {
+		return FreePort(udp)
+	}
+	for {
+		p := 0
+		if udp {
+			pc, err := net.ListenPacket("udp", "[::1]:0")
+			if err != nil {
+				return 0
+			}
+			p = pc.LocalAddr().(*net.UDPAddr).Port
+			pc.Close()
+		} else {
+			l, err := net.Listen("tcp", "[::1]:0")
+			if err != nil {
+				return 0
+			}
+			p = l.Addr().(*net.TCPAddr).Port
+			l.Close()
+		}
+		if p < 40900 || p > 42100 {
+			return p
+		}
+	}
+}
+
+// C16Certs: server certificates that are valid for ONE spelling of the loopback address only, from a CA of
+// their own (the client of the C16 workload trusts CA1 and this one).
+type C16Certs struct {
+	CA     string
+	V4, V6 CertPair // IP SAN 127.0.0.1 only / IP SAN ::1 only
+}
+
+var c16CertsOnce sync.Once
+var c16Certs *C16Certs
+
+func C16PKI() *C16Certs {
+	c16CertsOnce.Do(func() {
+		c := newCA("verif C16 CA")
+		now := time.Now()
+		from, to := now.Add(-24*time.Hour), now.Add(365*24*time.Hour)
+		c16Certs = &C16Certs{CA: c.pem,
+			V4: c.issue("127.0.0.1", nil, []net.IP{net.IPv4(127, 0, 0, 1)}, false, from, to),
+			V6: c.issue("::1", nil, []net.IP{net.IPv6loopback}, false, from, to)}
+	})
+	return c16Certs
+}
+
+// c16RelayOn is NewRelay("tcp", upstream, "") with the listener on the loopback of a host spelling.
+func c16RelayOn(host, upstream string) (*Relay, error) {
+	if host != "ip6" {
+		return NewRelay("tcp", upstream, "")
+	}
+	r := &Relay{network: "tcp", upstream: upstream, capLimit: 8 << 20}
+	for {
+		ln, err := net.Listen("tcp", "[::1]:0")
+		if err != nil {
+			return nil, err
+		}
+		if p := ln.Addr().(*net.TCPAddr).Port; p < 40900 || p > 42100 {
+			r.ln, r.Addr = ln, ln.Addr().String()
+			break
+		}
+		ln.Close()
+	}
+	go r.loop()
+	return r, nil
+}
+
+// c16UDPRelayOn is NewUDPRelay with the socket on the loopback of a host spelling.
+func c16UDPRelayOn(host, server string) (*UDPRelay, error) {
+	if host != "ip6" {
+		return NewUDPRelay(server)
+	}
+	sa, err := net.ResolveUDPAddr("udp", server)
+	if err != nil {
+		return nil, err
+	}
+	pc, err := net.ListenPacket("udp", "[::1]:0")
+	if err != nil {
+		return nil, err
+	}
+	r := &UDPRelay{Addr: pc.LocalAddr().String(), pc: pc, server: sa, peers: map[string]*net.UDPConn{}}
+	go r.loop()
+	return r, nil
+}
+
 // NewC16Endpoint starts target, server and relay. withCert: the server has a certificate (it offers
 // StartTLS; tcp+tls always has one).
 func NewC16Endpoint(kind, name string, withCert bool) (*C16Endpoint, error) {
@@ -176,7 +303,7 @@ func NewC16Endpoint(kind, name string, withCert bool) (*C16Endpoint, error) {
 	}
 	var lastErr error
 	for attempt := 0; attempt < 8; attempt++ {
-		e.SrvAddr = fmt.Sprintf("127.0.0.1:%d", FreePort(c16IsUDP(kind)))
+		e.SrvAddr = fmt.Sprintf("%s:%d", c16Loop(e.Host), c16FreePort(e.Host, c16IsUDP(kind)))
 		lastErr = e.StartServer()
 		if lastErr == nil || !isBindErr(lastErr) {
 			break
@@ -187,9 +314,9 @@ func NewC16Endpoint(kind, name string, withCert bool) (*C16Endpoint, error) {
 		return nil, fmt.Errorf("c16 endpoint %s/%s: %v", kind, name, lastErr)
 	}
 	if c16IsUDP(kind) {
-		e.UDPRelay, err = NewUDPRelay(e.SrvAddr)
+		e.UDPRelay, err = c16UDPRelayOn(e.Host, e.SrvAddr)
 	} else {
-		e.Relay, err = NewRelay("tcp", e.SrvAddr, "")
+		e.Relay, err = c16RelayOn(e.Host, e.SrvAddr)
 	}
 	if err != nil {
 		e.Close()
@@ -208,7 +335,9 @@ func (e *C16Endpoint) StartServer() error {
 		case "localhost":
 			cfg.Certificate, cfg.PrivateKey = pk.GoodDNS.Cert, pk.GoodDNS.Key
 		case "ip":
-			cfg.Certificate, cfg.PrivateKey = pk.GoodIP.Cert, pk.GoodIP.Key
+			cfg.Certificate, cfg.PrivateKey = C16PKI().V4.Cert, C16PKI().V4.Key
+		case "ip6":
+			cfg.Certificate, cfg.PrivateKey = C16PKI().V6.Cert, C16PKI().V6.Key
 		}
 	}
 	cfg.CaCertificate = pk.CA1
@@ -431,15 +560,20 @@ var c16DeadDNSSeq int64
 //
 // No DNS server is involved (nothing is registered in miekg's handler table): the resolvers are bare UDP sockets.
 func NewC16ScriptedDNS(manner string, n int) (*C16Scripted, error) {
+	return NewC16ScriptedDNSHost(manner, n, "")
+}
+
+// NewC16ScriptedDNSHost: host "ip6" puts the resolver candidates on ::1.
+func NewC16ScriptedDNSHost(manner string, n int, host string) (*C16Scripted, error) {
 	if n < 1 {
 		n = 1
 	}
-	s := &C16Scripted{Kind: "dns", Manner: manner, fd: -1, peers: map[string]bool{}}
+	s := &C16Scripted{Kind: "dns", Manner: manner, fd: -1, peers: map[string]bool{}, Host: host}
 	s.Domain = fmt.Sprintf("dead%d.c16.example.org", atomic.AddInt64(&c16DeadDNSSeq, 1))
 	for i := 0; i < n; i++ {
 		s.resPeers = append(s.resPeers, map[string]bool{})
 		if manner == "refused" {
-			a, err := c16ClosedUDPPort()
+			a, err := c16ClosedUDPPort(c16Loop(host))
 			if err != nil {
 				s.Close()
 				return nil, err
@@ -447,7 +581,7 @@ func NewC16ScriptedDNS(manner string, n int) (*C16Scripted, error) {
 			s.Resolvers = append(s.Resolvers, a)
 			continue
 		}
-		pc, err := net.ListenPacket("udp", "127.0.0.1:0")
+		pc, err := net.ListenPacket("udp", c16Loop(host)+":0")
 		if err != nil {
 			s.Close()
 			return nil, err
@@ -498,17 +632,17 @@ func (s *C16Scripted) serveResolver(i int, pc net.PacketConn) {
 	}
 }
 
-func c16ClosedUDPPort() (string, error) {
+func c16ClosedUDPPort(lo string) (string, error) {
 	// a closed UDP port: nothing is bound to it. It is taken from below the ephemeral range, so that no
 	// other socket of this machine is given the port later while a client still sends to it.
 	for i := 0; i < 200; i++ {
 		port := 20000 + int((int64(os.Getpid())*131+atomic.AddInt64(&c16ClosedPortSeq, 1)*7919)%9000)
-		pc, err := net.ListenPacket("udp", fmt.Sprintf("127.0.0.1:%d", port))
+		pc, err := net.ListenPacket("udp", fmt.Sprintf("%s:%d", lo, port))
 		if err != nil {
 			continue
 		}
 		pc.Close()
-		return fmt.Sprintf("127.0.0.1:%d", port), nil
+		return fmt.Sprintf("%s:%d", lo, port), nil
 	}
 	return "", fmt.Errorf("c16: no closed udp port found")
 }
@@ -634,28 +768,41 @@ func (l *c16CountingListener) Accept() (net.Conn, error) {
 
 // NewC16Scripted starts a scripted endpoint.
 func NewC16Scripted(kind, manner string) (*C16Scripted, error) {
-	s := &C16Scripted{Kind: kind, Manner: manner, fd: -1, peers: map[string]bool{}}
+	return NewC16ScriptedHost(kind, manner, "")
+}
+
+// NewC16ScriptedHost: host "ip6" puts the endpoint on ::1 (its URL then says [::1]:port); the other spellings
+// are on 127.0.0.1 as before.
+func NewC16ScriptedHost(kind, manner, host string) (*C16Scripted, error) {
+	s := &C16Scripted{Kind: kind, Manner: manner, fd: -1, peers: map[string]bool{}, Host: host}
+	lo := c16Loop(host)
 	if manner == "refused" {
 		if kind == "udp" {
 			// a closed UDP port: nothing is bound to it. It is taken from below the ephemeral range, so that no
 			// other socket of this machine is given the port later while a client still sends to it.
 			for i := 0; i < 200; i++ {
 				port := 20000 + int((int64(os.Getpid())*131+atomic.AddInt64(&c16ClosedPortSeq, 1)*7919)%9000)
-				pc, err := net.ListenPacket("udp", fmt.Sprintf("127.0.0.1:%d", port))
+				pc, err := net.ListenPacket("udp", fmt.Sprintf("%s:%d", lo, port))
 				if err != nil {
 					continue
 				}
 				pc.Close()
-				s.Addr = fmt.Sprintf("127.0.0.1:%d", port)
+				s.Addr = fmt.Sprintf("%s:%d", lo, port)
 				return s, nil
 			}
 			return nil, fmt.Errorf("c16: no closed udp port found")
 		}
-		fd, err := syscall.Socket(syscall.AF_INET, syscall.SOCK_STREAM, 0)
+		family := syscall.AF_INET
+		var bindTo syscall.Sockaddr = &syscall.SockaddrInet4{Port: 0, Addr: [4]byte{127, 0, 0, 1}}
+		if host == "ip6" {
+			family = syscall.AF_INET6
+			bindTo = &syscall.SockaddrInet6{Port: 0, Addr: [16]byte{15: 1}}
+		}
+		fd, err := syscall.Socket(family, syscall.SOCK_STREAM, 0)
 		if err != nil {
 			return nil, err
 		}
-		if err = syscall.Bind(fd, &syscall.SockaddrInet4{Port: 0, Addr: [4]byte{127, 0, 0, 1}}); err != nil {
+		if err = syscall.Bind(fd, bindTo); err != nil {
 			syscall.Close(fd)
 			return nil, err
 		}
@@ -665,13 +812,18 @@ func NewC16Scripted(kind, manner string) (*C16Scripted, error) {
 			return nil, err
 		}
 		s.fd = fd
-		s.Addr = fmt.Sprintf("127.0.0.1:%d", sa.(*syscall.SockaddrInet4).Port)
+		switch a := sa.(type) {
+		case *syscall.SockaddrInet4:
+			s.Addr = fmt.Sprintf("127.0.0.1:%d", a.Port)
+		case *syscall.SockaddrInet6:
+			s.Addr = fmt.Sprintf("[::1]:%d", a.Port)
+		}
 		return s, nil
 	}
 	if kind == "udp" {
 		switch manner {
 		case "silent":
-			pc, err := net.ListenPacket("udp", "127.0.0.1:0")
+			pc, err := net.ListenPacket("udp", lo+":0")
 			if err != nil {
 				return nil, err
 			}
@@ -694,7 +846,7 @@ func NewC16Scripted(kind, manner string) (*C16Scripted, error) {
 			}()
 			return s, nil
 		case "hs-400", "hs-garbage", "silent-after-200", "silent-in-starttls":
-			ln, err := kcp.ListenWithOptions("127.0.0.1:0", nil, 10, 3)
+			ln, err := kcp.ListenWithOptions(lo+":0", nil, 10, 3)
 			if err != nil {
 				return nil, err
 			}
@@ -726,7 +878,7 @@ func NewC16Scripted(kind, manner string) (*C16Scripted, error) {
 		}
 		return nil, fmt.Errorf("c16: no scripted manner %q for udp", manner)
 	}
-	ln, err := net.Listen("tcp", "127.0.0.1:0")
+	ln, err := net.Listen("tcp", lo+":0")
 	if err != nil {
 		return nil, err
 	}
@@ -914,7 +1066,7 @@ func NewC16Client(urls []string, forward string, secure bool) (*C16Client, error
 	c.AddrRefused = sockName("c16x", "")
 	al2.Address = addr.MustParseAddress("unix://" + c.AddrRefused)
 	ccfg := cert.ClientConfig{}
-	ccfg.CaCertificate = pk.CA1
+	ccfg.CaCertificate = pk.CA1 + "\n" + C16PKI().CA // a bundle: the configured CA and the CA of the one-spelling certificates
 	c.Cmd = &clientCmd.Command{ClientConfig: ccfg, ListenList: listener.Listeners{&listener.SocketListener{AbstractListener: al}, &listener.SocketListener{AbstractListener: al2}},
 		Upstream: upstream.Upstreams{Data: ups}, Secure: secure}
 	if err := c.Cmd.Startup(c.intr); err != nil {
